@@ -566,6 +566,7 @@ type evalEnv struct {
 	gh      map[string]string
 	oldGh   map[string]string
 	retType []types.Type
+	loop    *ssa.BasicBlock // loop head whose invariant is being evaluated (for loop variables)
 }
 
 func (fx *FnExec) evalContract(e *CExpr, env *evalEnv) (string, error) {
@@ -737,7 +738,35 @@ func (fx *FnExec) evalIdent(name string, env *evalEnv) (cval, error) {
 			}
 		}
 	}
+	// local variable of the function: a phi named after the source variable
+	if v := fx.localByName(name, env.loop); v != nil {
+		return fx.cvalOf(fx.val(v)), nil
+	}
 	return cval{}, fmt.Errorf("unknown name %q", name)
+}
+
+// localByName finds the SSA phi that carries the source variable `name`, preferring the one at the
+// given loop head.
+func (fx *FnExec) localByName(name string, loop *ssa.BasicBlock) ssa.Value {
+	var found []ssa.Value
+	if loop != nil {
+		for _, in := range loop.Instrs {
+			if phi, ok := in.(*ssa.Phi); ok && phi.Comment == name {
+				return phi
+			}
+		}
+	}
+	for _, b := range fx.Fn.Blocks {
+		for _, in := range b.Instrs {
+			if phi, ok := in.(*ssa.Phi); ok && phi.Comment == name {
+				found = append(found, phi)
+			}
+		}
+	}
+	if len(found) == 1 {
+		return found[0]
+	}
+	return nil
 }
 
 func (fx *FnExec) nilOf(sort string) string {
